@@ -313,14 +313,16 @@ func (fr *Frame) execCall(ins ssa.CallInstruction, cc *ssa.CallCommon) []Term {
 	var args []Term
 	var argTypes []types.Type
 	if ci.invoke {
-		recv := fr.val(cc.Value)
-		fr.oblige("safety.nil", "", not(eq(app(SInt, "itag", recv), tInt(0))), ins.Pos(), "method call on nil interface")
-		args = append(args, recv)
+		args = append(args, fr.val(cc.Value))
 		argTypes = append(argTypes, cc.Value.Type())
 	}
 	for _, a := range cc.Args {
 		args = append(args, fr.val(a))
 		argTypes = append(argTypes, a.Type())
+	}
+	fr.callSpecAssumesKind(ci, "assume_before", args, argTypes)
+	if ci.invoke {
+		fr.oblige("safety.nil", "", not(eq(app(SInt, "itag", args[0]), tInt(0))), ins.Pos(), "method call on nil interface")
 	}
 	if ci.dynamic && !ci.invoke {
 		fv := fr.val(cc.Value)
@@ -331,7 +333,6 @@ func (fr *Frame) execCall(ins ssa.CallInstruction, cc *ssa.CallCommon) []Term {
 		return res
 	}
 	ord := fr.callOrdinal(ci.key)
-	fr.callSpecAssumesKind(ci, "assume_before", args, argTypes)
 	reacquire := fr.callSpecReleases(ci, ins)
 	fr.callSpecAsserts(ci, ord, args, argTypes)
 	fr.ghostAtCallT(ci, "before", args, argTypes)
